@@ -44,6 +44,10 @@ type genCase struct {
 	DefaultBT  bool
 	Sources    []string
 	Rules      []genRule // in rule-set order per source
+	// Mixed: rules of one rule set which share a path expression may differ in their backtracking setting. Which of the
+	// settings governs the expression then is not stated (heimdall: the one of the rule loaded last), so such cases are
+	// compared between repositories only (load orders, a fresh load against an update history), not with the reference.
+	Mixed bool
 }
 
 func (c genCase) describe() map[string]any {
@@ -78,6 +82,7 @@ func genRuleSets(t *rapid.T) genCase {
 	c := genCase{Style: vkit.GenStyle(t)}
 	c.HasDefault = rapid.Bool().Draw(t, "hasDefault")
 	c.DefaultBT = rapid.Bool().Draw(t, "defaultBT")
+	c.Mixed = rapid.IntRange(0, 4).Draw(t, "mixedBacktrackingSettings") == 2
 
 	nsrc := rapid.IntRange(1, 3).Draw(t, "nsrc")
 	owner := map[string]string{} // shape -> source
@@ -121,7 +126,7 @@ func genRuleSets(t *rapid.T) genCase {
 					e := vkit.GenExpr(t, c.Style, "expr")
 					sh := e.Shape()
 
-					if o, taken := owner[sh]; taken && (o != src || flagOf[sh] != bt) {
+					if o, taken := owner[sh]; taken && (o != src || (flagOf[sh] != bt && !c.Mixed)) {
 						continue
 					}
 
@@ -160,6 +165,13 @@ func genRuleSets(t *rapid.T) genCase {
 }
 
 func buildWorld(c genCase, order []string) (*vkit.World, map[string]bool, error) {
+	return buildWorldVia(c, order, false)
+}
+
+// buildWorldVia: with viaUpdate every rule set is first loaded in an earlier version - with one more rule at its end, which
+// shares the path expression of the rule set's first rule, has the opposite backtracking setting and a method no request of
+// this check comes with - and then updated to the version of the case.
+func buildWorldVia(c genCase, order []string, viaUpdate bool) (*vkit.World, map[string]bool, error) {
 	conf := vkit.DefaultConf()
 	conf.Prototypes.Authenticators = []config.Mechanism{{ID: "anon", Type: vkit.ProbeType}}
 
@@ -216,6 +228,26 @@ func buildWorld(c genCase, order []string) (*vkit.World, map[string]bool, error)
 		}
 
 		if len(rs) == 0 {
+			continue
+		}
+
+		if viaUpdate {
+			first := rs[0]
+			opposite := !flags[src+"/"+first.ID]
+			extra := rulecfg.Rule{
+				ID:      "only-in-the-earlier-version",
+				Matcher: rulecfg.Matcher{BacktrackingEnabled: &opposite, Methods: []string{"PUT"}, Routes: []rulecfg.Route{{Path: first.Matcher.Routes[0].Path}}},
+				Execute: []config.MechanismConfig{{"authenticator": "anon"}},
+			}
+
+			if err = w.Load(src, append(append([]rulecfg.Rule{}, rs...), extra)...); err != nil {
+				return nil, nil, fmt.Errorf("load of the earlier version of %s: %w", src, err)
+			}
+
+			if err = w.Update(src, rs...); err != nil {
+				return nil, nil, fmt.Errorf("update %s: %w", src, err)
+			}
+
 			continue
 		}
 
@@ -322,6 +354,12 @@ func TestRepositoryMatchesModel(t *testing.T) {
 			t.Fatalf("valid rule sets were rejected in order %v: %v\ncase: %+v", perm, err, c.describe())
 		}
 
+		// a third repository arrives at the rule sets through an update each
+		w3, _, err := buildWorldVia(c, order, true)
+		if err != nil {
+			t.Fatalf("valid rule sets were rejected when loaded in an earlier version and updated: %v\ncase: %+v", err, c.describe())
+		}
+
 		// the second repository additionally sees a rule set which is refused (it claims a path expression another rule
 		// set owns, after bringing some acceptable rules of its own): which rule is selected must not depend on that either
 		rejected := false
@@ -398,7 +436,19 @@ func TestRepositoryMatchesModel(t *testing.T) {
 					map[string]any{"case": c.describe(), "method": method, "path": path, "expected": want})
 			}
 
-			if got1 != want {
+			got3, err := lookup(w3, method, path)
+			if err != nil {
+				t.Fatalf("lookup error: %v", err)
+			}
+
+			vkit.S.LabelIf(c.Mixed, "mixed_backtracking_settings_for_one_expression")
+
+			if got3 != got1 {
+				t.Fatalf("history dependence: %s %s selected %s after a fresh load but %s after every rule set was loaded in an earlier version (one more rule sharing the "+
+					"first rule's path expression, with the opposite backtracking setting) and updated\ncase: %+v", method, path, got1, got3, c.describe())
+			}
+
+			if got1 != want && !c.Mixed {
 				t.Fatalf("most-specific-match violated: %s %s selected %s, reference model says %s\ncase: %+v",
 					method, path, got1, want, c.describe())
 			}
